@@ -865,6 +865,8 @@ def _rep(a, b):
 
 
 WITNESSES = [
+    ("training command checks the whole screen's outcomes", "batchie.cli.train_model",
+     _rep("    data = Screen.load_h5(args.data)\n", "    data = Screen.load_h5(args.data)\n    if not np.isfinite(data.observations).all():\n        raise ValueError(\"non-finite outcomes\")\n"), ["R13"]),
     ("interaction model reads the screen-level effect table", "batchie.models.sparse_combo_interaction",
      _rep("        self.single_effect_lookup.update(\n", "        table_of_effects = data.single_treatment_effects\n        self.single_effect_lookup.update(\n"), ["R8"]),
     ("predict reads observations", "batchie.models.sparse_combo", _rep("    Mu = intercept + interaction1 + interaction2\n\n    if viability:", "    Mu = intercept + interaction1 + interaction2 + 0.0 * data.observations\n\n    if viability:"), ["R1"]),
